@@ -69,3 +69,85 @@ Example nonvacuous :
   let f := run_auto 0 100 [104%N] [100%N] body [true; true; false; true; true; false] in
   has_raise body = false /\ existsb fst (writes f) = true /\ 5 <= length (writes f).
 Proof. vm_compute. repeat split. lia. Qed.
+
+(* ======================================================================================================================
+   The same statements at the granularity of ACCESSES TO SHARED STATE (Model/Spinner2.v, driver entry run_C19F): a thread
+   stops before every operation on the stop event, every read and write of _started / _update_time / _current / _message /
+   _auto_thread (while both threads exist), every stream write, sleep and join; a schedule orders ALL of them.  Any list of
+   indicator values, any format of literal text, {indicator} and {message}, any interval.  harness/sched.py drives the two
+   real threads at exactly these points. *)
+From Clikit Require Import Model.Spinner2 Proofs.Spinner2Lemmas.
+
+(* Leaving the automatic mode always stops and joins the spinner - whichever way the accesses of the two threads interleave. *)
+Theorem fine_auto_always_stops_spinner : forall c t0 sm acts sched,
+  let f := run_auto2 c t0 sm acts sched in
+  all_done2 f = true /\ stop2 f = true /\ sp2 f = SDone /\ ph2 f = HFinished (has_raise acts).
+Proof. exact auto2_always_stops. Qed.
+Print Assumptions fine_auto_always_stops_spinner.
+
+(* Every single stream write is a line break or a WHOLE frame: the format with each {indicator} replaced by one of the
+   indicator values and each {message} by the start message, the end message or a message the body set. *)
+Theorem fine_every_write_is_whole : forall c t0 sm acts sched,
+  let P := fun m => m = sm \/ m = c_end c \/ In (ASet m) acts in
+  Forall (fun w => match snd w with Some t => frame_ok c P t | None => True end) (writes2 (run_auto2 c t0 sm acts sched)).
+Proof.
+  intros c t0 sm acts sched P.
+  apply (all_writes2_built c P); unfold P; auto.
+  apply Forall_forall. intros [m|d|] Hin; cbn; auto.
+Qed.
+Print Assumptions fine_every_write_is_whole.
+(* ... for the built-in format " {indicator} {message}": the format filled with ONE value and ONE message. *)
+Theorem fine_default_format_frames : forall c P t, c_fmt c = [PLit [32%N]; PInd; PLit [32%N]; PMsg] -> frame_ok c P t ->
+  exists k m, P m /\ t = fill_fmt (c_values c) k m (c_fmt c).
+Proof. exact built_indicator_message. Qed.
+Print Assumptions fine_default_format_frames.
+
+(* The terminal line never shows a mixture of two frames: after ANY prefix of the write history every row of the screen is
+   empty or exactly one whole frame (messages of at most L characters, a terminal wide enough for the format). *)
+Theorem fine_line_never_mixed : forall w L c t0 sm acts sched n,
+  1 <= w -> fmt_width L (c_fmt c) <= w -> short_msg L sm -> short_msg L (c_end c) -> Forall (act_ok (short_msg L)) acts ->
+  Forall (okQ (frame_ok c (short_msg L)))
+         (rows (feed w term_init (flat_map (fun x => emits_of_write (snd x)) (firstn n (writes2 (run_auto2 c t0 sm acts sched)))))).
+Proof. intros. apply line_never_mixed2_lemma; assumption. Qed.
+Print Assumptions fine_line_never_mixed.
+
+(* A normal exit: the last two writes are the end-message frame (indicator reset) and the line break, both by the caller ... *)
+Theorem fine_normal_exit_last_frame : forall c t0 sm acts sched, has_raise acts = false ->
+  exists pre, writes2 (run_auto2 c t0 sm acts sched) = pre ++ [(false, Some (endframe c)); (false, None)].
+Proof. exact normal_exit_last_frame2_lemma. Qed.
+Print Assumptions fine_normal_exit_last_frame.
+(* ... and the last line shown on the terminal is exactly that frame. *)
+Theorem fine_normal_exit_screen : forall w L c t0 sm acts sched,
+  1 <= w -> fmt_width L (c_fmt c) <= w -> short_msg L sm -> short_msg L (c_end c) -> Forall (act_ok (short_msg L)) acts ->
+  has_raise acts = false ->
+  exists R, rows (feed w term_init (flat_map (fun x => emits_of_write (snd x)) (writes2 (run_auto2 c t0 sm acts sched)))) = R ++ [endframe c; []].
+Proof. intros. eapply normal_exit_screen2_lemma; eassumption. Qed.
+Print Assumptions fine_normal_exit_screen.
+
+(* Manual mode with any values / format / interval: redraws by advance() are at least one interval apart ... *)
+Theorem manual_throttle_any_interval : forall c ops t0 m, (0 <= c_interval c)%Z ->
+  spaced (c_interval c) (adv_times2 c (manual_init2 c t0 m) t0 ops) /\
+  Forall (fun t => t0 + c_interval c <= t)%Z (adv_times2 c (manual_init2 c t0 m) t0 ops).
+Proof. intros c ops t0 m H. destruct (adv_times2_spaced c H ops (manual_init2 c t0 m) t0) as [Fa Sp]. split; assumption. Qed.
+Print Assumptions manual_throttle_any_interval.
+(* ... and every frame is the format filled with one of the indicator values and the message current at that call. *)
+Theorem manual_frames_any_values : forall c ops t0 m,
+  let f := manual_run2 c (manual_init2 c t0 m) t0 ops in
+  Forall (mframe2 c) (n_frames f) /\
+  (exists pre, n_frames f = pre ++ [Some (fill_fmt (c_values c) (n_cur f) (n_msg f) (c_fmt c))] \/
+               n_frames f = pre ++ [Some (fill_fmt (c_values c) (n_cur f) (n_msg f) (c_fmt c)); None]) /\
+  (c_values c <> [] -> forall k, In (indicator2 (c_values c) k) (c_values c)).
+Proof.
+  intros. destruct (manual_run2_MI2 c ops (manual_init2 c t0 m) t0 (manual_init2_MI2 c t0 m)) as [H1 H2].
+  split; [exact H1|]. split; [exact H2|]. intros Hv k. apply indicator2_in_values, Hv.
+Qed.
+Print Assumptions manual_frames_any_values.
+
+(* not vacuous: two values, the format "{message} ({indicator})", a schedule that lets the spinner draw between the caller's
+   write of the message and its read of the indicator position *)
+Example fine_nonvacuous :
+  let c := {| c_values := [97%N; 98%N]; c_fmt := [PMsg; PLit [32%N; 40%N]; PInd; PLit [41%N]]; c_interval := 100; c_nap := 100; c_end := [100%N] |} in
+  let body := [AWork 150; ASet [120%N]] in
+  let f := run_auto2 c 0 [115%N] body ([false] ++ repeat true 12 ++ [false] ++ repeat true 9 ++ [false]) in
+  has_raise body = false /\ existsb fst (writes2 f) = true /\ 5 <= length (writes2 f) /\ skips2 f = 0.
+Proof. vm_compute. repeat split; lia. Qed.
